@@ -42,6 +42,7 @@ type streamLine struct {
 	Chunks  []int          `json:"chunks"`
 	Results []streamResult `json:"results"`
 	Err     string         `json:"err"`
+	StallAt int            `json:"stallat"` // path conn+timeout: bytes delivered before the peer stalls
 }
 
 func idxByte(i int) byte { return byte(i%250 + 1) }
@@ -216,6 +217,55 @@ func runStreamConn(id int, c *streamCase, dp *dict.Parser, cnAt int) streamLine 
 	return l
 }
 
+// runStreamTimeout: an accepted connection of a Server with ReadTimeout; the peer stalls after
+// `stallat` bytes for longer than the timeout and then sends the rest. Messages wholly received
+// before the stall are delivered, the connection is closed, nothing sent afterwards is delivered
+// (in particular nothing that starts in the middle of a message).
+func runStreamTimeout(id int, c *streamCase, dp *dict.Parser) streamLine {
+	l := streamLine{Ev: "stream", ID: id, Path: "conn+timeout", Exact: false, Lens: c.Lens, Total: c.Total, Chunks: c.Chunks, Results: []streamResult{}}
+	data := streamBytes(c.Lens)
+	if c.Total < len(data) {
+		data = data[:c.Total]
+	}
+	l.StallAt = (id * 7) % (len(data) + 1)
+	mc := memnet.NewConn()
+	mux := diam.NewServeMux()
+	var mu sync.Mutex
+	mux.HandleFunc("ALL", func(dc diam.Conn, m *diam.Message) {
+		idx, pure := classify(m)
+		mu.Lock()
+		l.Results = append(l.Results, streamResult{Kind: "msg", Idx: idx, Pure: pure})
+		mu.Unlock()
+	})
+	stop := make(chan struct{})
+	go func() {
+		for {
+			select {
+			case <-mux.ErrorReports():
+			case <-stop:
+				return
+			}
+		}
+	}()
+	ln := memnet.NewListener()
+	go (&diam.Server{Handler: mux, Dict: dp, ReadTimeout: 50 * time.Millisecond}).Serve(ln)
+	ln.Push(mc)
+	mc.Feed(data[:l.StallAt]) // one fragment: whole messages in it are read at once
+	mc.WaitClosed(150 * time.Millisecond)
+	mc.Feed(data[l.StallAt:])
+	mc.FeedErr(io.EOF)
+	if !mc.WaitClosed(10 * time.Second) {
+		l.Err = "connection not closed after the read timeout"
+	}
+	time.Sleep(2 * time.Millisecond)
+	close(stop)
+	ln.Close()
+	mu.Lock()
+	l.Results = append(l.Results, streamResult{Kind: "err", Pure: true})
+	mu.Unlock()
+	return l
+}
+
 func Stream(a Args) error {
 	out, err := NewOut(a.Out)
 	if err != nil {
@@ -227,11 +277,18 @@ func Stream(a Args) error {
 		return err
 	}
 	id := 0
+	timeoutEvery := 4
+	var tmo []streamCase
+	var tmoID []int
 	run := func(c *streamCase) {
 		id++
 		out.Emit(runStreamDirect(id, c, vp))
 		out.Emit(runStreamConn(id, c, vp, 0))
 		out.Emit(runStreamConn(id, c, vp, 1+id%2))
+		if id%timeoutEvery == 0 {
+			tmo = append(tmo, *c)
+			tmoID = append(tmoID, id)
+		}
 	}
 	if a.Cases != "" {
 		err = ReadLines(a.Cases, func(line []byte) error {
@@ -298,6 +355,23 @@ func Stream(a Args) error {
 			c.Chunks = []int{}
 		}
 		run(&c)
+	}
+	// the read-timeout path waits for real time: run those scenarios 64 at a time
+	lines := make([]streamLine, len(tmo))
+	sem := make(chan struct{}, 64)
+	var wg sync.WaitGroup
+	for k := range tmo {
+		wg.Add(1)
+		sem <- struct{}{}
+		go func(k int) {
+			defer wg.Done()
+			defer func() { <-sem }()
+			lines[k] = runStreamTimeout(tmoID[k], &tmo[k], vp)
+		}(k)
+	}
+	wg.Wait()
+	for k := range lines {
+		out.Emit(lines[k])
 	}
 	return nil
 }
